@@ -63,6 +63,19 @@ def subscript_keys(fn, base):
     return out
 
 
+def written_keys(fn, base):
+    """Keys of the record `base` written by fn: base["K"] = ..., base = {"K": ...}, and a dict literal returned directly."""
+    out = set()
+    for n in ast.walk(fn.node):
+        if isinstance(n, ast.Subscript) and isinstance(n.value, ast.Name) and n.value.id == base and isinstance(n.slice, ast.Constant) and isinstance(n.slice.value, str):
+            out.add(n.slice.value)
+        if isinstance(n, ast.Assign) and any(isinstance(t, ast.Name) and t.id == base for t in n.targets) and isinstance(n.value, ast.Dict):
+            out |= {k.value for k in n.value.keys if isinstance(k, ast.Constant) and isinstance(k.value, str)}
+        if isinstance(n, ast.Return) and isinstance(n.value, ast.Dict):
+            out |= {k.value for k in n.value.keys if isinstance(k, ast.Constant) and isinstance(k.value, str)}
+    return out
+
+
 def membership_keys(fn, base):
     out = set()
     for n in ast.walk(fn.node):
@@ -162,6 +175,13 @@ def check_hif(repo, res):
                         used = True
                 if lits and used:
                     emitted = {l: l for l in lits}
+    if not emitted:
+        # one generator per side: ((n, e, "in") for n in edge["in"])
+        for comp in ast.walk(be.node):
+            if isinstance(comp, (ast.ListComp, ast.GeneratorExp)) and isinstance(comp.elt, ast.Tuple) and len(comp.elt.elts) == 3 and isinstance(comp.elt.elts[2], ast.Constant) and len(comp.generators) == 1:
+                it = comp.generators[0].iter
+                if isinstance(it, ast.Subscript) and isinstance(it.slice, ast.Constant):
+                    emitted[it.slice.value] = comp.elt.elts[2].value
     if wm is None or rm is None or not emitted:
         raise AnalysisError("HIF direction maps (_convert_d lambdas / to_bipartite_edgelist literals) not found (extractor does not recognise the code)")
     ok = True
@@ -208,21 +228,46 @@ def check_hif(repo, res):
         if not ok:
             res.add(mk_finding(PROP, "T-ATTRS", w, w.node, f"to_hif_dict: {why}; attributes of some {table} are lost in a HIF round trip", role=table))
 
-    # ---- T-CAST
-    for key, typ in (("node", "nodetype"), ("edge", "edgetype")):
-        sites = [n for k, n in subscript_keys(r, "record") if k == key]
-        par = {}
-        for p in ast.walk(r.node):
-            for ch in ast.iter_child_nodes(p):
-                par[ch] = p
-        for s in sites:
-            p = par.get(s)
-            ok = isinstance(p, ast.Call) and len(p.args) == 2 and p.args[0] is s and isinstance(p.args[1], ast.Name) and p.args[1].id == typ
-            res.inst("T-CAST", f"from_hif_dict:{s.lineno} record[{key!r}] is cast with {typ}", ok)
+    # ---- T-CAST: every ID handed to a network-building call is `<type>(record[<role>])` (raw only when no type is given)
+    from ..provenance import Resolver
+
+    rsv = Resolver(r.node, {f.name: f.node for f in r.module.functions.values()})
+    sinks = []
+    for c in ast.walk(r.node):
+        if not (isinstance(c, ast.Call) and isinstance(c.func, ast.Attribute)):
+            continue
+        a = c.func.attr
+        if a == "add_node_to_edge" and len(c.args) >= 2:
+            sinks += [(c, c.args[0], "edge"), (c, c.args[1], "node")]
+        elif a == "add_node" and c.args:
+            sinks.append((c, c.args[0], "node"))
+        elif a == "add_edge" and len(c.args) >= 2:
+            sinks.append((c, c.args[1], "edge"))
+        elif a in ("set_node_attributes", "set_edge_attributes") and c.args and isinstance(c.args[0], ast.Dict):
+            for k in c.args[0].keys:
+                if k is not None:
+                    sinks.append((c, k, "node" if a == "set_node_attributes" else "edge"))
+    n_sinks = {"node": 0, "edge": 0}
+    for c, expr, role in sinks:
+        typ = role + "type"
+        n_sinks[role] += 1
+        for alt in rsv.resolve(r.node, expr):
+            e = alt.expr
+            if isinstance(e, ast.Call) and isinstance(e.func, ast.Name) and len(e.args) == 1 and isinstance(e.args[0], ast.Subscript) and isinstance(e.args[0].slice, ast.Constant):
+                ok = e.func.id == typ and e.args[0].slice.value == role
+                why = f"is `{alt.text()}`"
+            elif isinstance(e, ast.Subscript) and isinstance(e.slice, ast.Constant):
+                falsy = any((isinstance(t, ast.Name) and t.id == typ and not b) or (" ".join(ast.unparse(t).split()) == f"{typ} is None" and b) or (" ".join(ast.unparse(t).split()) == f"{typ} is not None" and not b) for t, b in alt.guards)
+                ok = e.slice.value == role and falsy
+                why = f"is the raw `{alt.text()}`" + ("" if falsy else f" on a path where `{typ}` may be given")
+            else:
+                raise AnalysisError(f"from_hif_dict:{c.lineno}: cannot resolve where the {role} ID `{alt.text()}` comes from (extractor does not recognise the code)")
+            res.inst("T-CAST", f"from_hif_dict:{c.lineno} {c.func.attr}: {role} ID {why}", ok)
             if not ok:
-                res.add(mk_finding(PROP, "T-CAST", r, s, f"from_hif_dict reads record[{key!r}] without casting it with `{typ}`; the same ID is then known under two different labels", role=key))
-        if len(sites) < 2:
-            raise AnalysisError(f"from_hif_dict: expected record[{key!r}] to be read for incidences and for the {key} records")
+                res.add(mk_finding(PROP, "T-CAST", r, c, f"from_hif_dict: the {role} ID handed to {c.func.attr}() {why}; it must be `{typ}(record[{role!r}])` - otherwise the same ID is known under two different labels (incidences vs. attribute records) or under the wrong type", role=f"{role}:{c.func.attr}"))
+    for role, cnt in n_sinks.items():
+        if cnt < 2:
+            raise AnalysisError(f"from_hif_dict: expected the {role} ID to be used for the incidences and for the {role} records")
     conv = None
     for st in own_statements(r.node):
         if isinstance(st, ast.FunctionDef) and st.name == "_convert_id":
@@ -278,50 +323,78 @@ def definitely_assigned(w, cfg, assigns, rets, wtypes):
 
 
 def attrs_written(w, table, view):
-    """On the paths where H.<view>[x] is truthy, the record appended to data[table] carries 'attrs'."""
-    appends = []
+    """On the paths where H.<view>[x] is truthy, the record that ends up in data[table] carries 'attrs'. Records are
+    appended to data[table] directly, or built by a nested helper that receives the view and whose result is handed to
+    data[table] (extend / assignment)."""
+    nested = {s.name: s for s in own_statements(w.node) if isinstance(s, (ast.FunctionDef, ast.AsyncFunctionDef))}
+    sites = []  # (scope node, stmt, append call, names that denote the view inside the scope)
     for st in own_statements(w.node):
         for c in own_nodes(st):
             if isinstance(c, ast.Call) and getattr(c.func, "attr", "") == "append" and isinstance(c.func.value, ast.Subscript) and isinstance(c.func.value.slice, ast.Constant) and c.func.value.slice.value == table:
-                appends.append((st, c))
-    if not appends:
+                sites.append((w.node, st, c, set()))
+    # records produced elsewhere and handed over: data[table].extend(V) / data[table] = V / data[table] += V
+    handed = []
+    for st in own_statements(w.node):
+        for c in own_nodes(st):
+            if isinstance(c, ast.Call) and getattr(c.func, "attr", "") == "extend" and isinstance(c.func.value, ast.Subscript) and isinstance(c.func.value.slice, ast.Constant) and c.func.value.slice.value == table and c.args:
+                handed.append(c.args[0])
+        if isinstance(st, (ast.Assign, ast.AugAssign)):
+            tg = st.targets if isinstance(st, ast.Assign) else [st.target]
+            if any(isinstance(t, ast.Subscript) and isinstance(t.value, ast.Name) and t.value.id == "data" and isinstance(t.slice, ast.Constant) and t.slice.value == table for t in tg):
+                handed.append(st.value)
+    for v in handed:
+        exprs = [v]
+        if isinstance(v, ast.Name):
+            exprs = [d.value for d in own_statements(w.node) if isinstance(d, ast.Assign) and any(isinstance(t, ast.Name) and t.id == v.id for t in d.targets)]
+        for e in exprs:
+            if isinstance(e, ast.Call) and isinstance(e.func, ast.Name) and e.func.id in nested:
+                h = nested[e.func.id]
+                params = [a.arg for a in h.args.args]
+                vnames = {p for p, a in zip(params, e.args) if isinstance(a, ast.Attribute) and a.attr == view}
+                if not vnames:
+                    continue
+                for st2 in own_statements(h):
+                    for c2 in own_nodes(st2):
+                        if isinstance(c2, ast.Call) and getattr(c2.func, "attr", "") == "append" and isinstance(c2.func.value, ast.Name) and c2.args:
+                            sites.append((h, st2, c2, vnames))
+    if not sites:
         return False, f"no record is appended to data[{table!r}]"
-    par = {}
-    for p in ast.walk(w.node):
-        for ch in ast.iter_child_nodes(p):
-            par[ch] = p
 
-    def is_attr_test(t, negate=False):
-        """t is `H.<view>[x]` (truthiness of the attribute dict)"""
-        if isinstance(t, ast.UnaryOp) and isinstance(t.op, ast.Not):
-            r = is_attr_test(t.operand)
-            return None if r is None else (not r)
-        if isinstance(t, ast.Subscript) and isinstance(t.value, ast.Attribute) and t.value.attr == view:
-            return True
-        if isinstance(t, ast.Name):
-            defs = [s.value for s in own_statements(w.node) if isinstance(s, ast.Assign) and any(isinstance(x, ast.Name) and x.id == t.id for x in s.targets)]
-            if defs and all(isinstance(d, ast.Subscript) and isinstance(d.value, ast.Attribute) and d.value.attr == view for d in defs):
+    for scope, st, c, vnames in sites:
+        par = {}
+        for p in ast.walk(scope):
+            for ch in ast.iter_child_nodes(p):
+                par[ch] = p
+
+        def is_attr_test(t, scope=scope, vnames=vnames):
+            """t is `H.<view>[x]` (truthiness of the attribute dict)"""
+            if isinstance(t, ast.UnaryOp) and isinstance(t.op, ast.Not):
+                r = is_attr_test(t.operand)
+                return None if r is None else (not r)
+            if isinstance(t, ast.Subscript) and ((isinstance(t.value, ast.Attribute) and t.value.attr == view) or (isinstance(t.value, ast.Name) and t.value.id in vnames)):
                 return True
-        return None
+            if isinstance(t, ast.Name):
+                defs = [s2.value for s2 in own_statements(scope) if isinstance(s2, ast.Assign) and any(isinstance(x, ast.Name) and x.id == t.id for x in s2.targets)]
+                if defs and all(is_attr_test(d) is True for d in defs):
+                    return True
+            return None
 
-    def carries_attrs(expr):
-        if "attrs" in dict_literal_keys(expr):
-            # unconditional literal, or IfExp guarded by the attribute test
-            return True
-        for n in ast.walk(expr):
-            if isinstance(n, ast.Name):
-                defs = [s for s in own_statements(w.node) if isinstance(s, ast.Assign) and any(isinstance(t, ast.Name) and t.id == n.id for t in s.targets)]
-                for d in defs:
-                    v = d.value
-                    if isinstance(v, ast.IfExp) and is_attr_test(v.test) is True and "attrs" in dict_literal_keys(v.body):
-                        return True
-                    if isinstance(v, ast.IfExp) and is_attr_test(v.test) is False and "attrs" in dict_literal_keys(v.orelse):
-                        return True
-                    if isinstance(v, ast.Dict) and "attrs" in dict_literal_keys(v):
-                        return True
-        return False
+        def carries_attrs(expr, scope=scope):
+            if "attrs" in dict_literal_keys(expr):
+                return True
+            for n in ast.walk(expr):
+                if isinstance(n, ast.Name):
+                    defs = [s2 for s2 in own_statements(scope) if isinstance(s2, ast.Assign) and any(isinstance(t, ast.Name) and t.id == n.id for t in s2.targets)]
+                    for d in defs:
+                        v = d.value
+                        if isinstance(v, ast.IfExp) and is_attr_test(v.test) is True and "attrs" in dict_literal_keys(v.body):
+                            return True
+                        if isinstance(v, ast.IfExp) and is_attr_test(v.test) is False and "attrs" in dict_literal_keys(v.orelse):
+                            return True
+                        if isinstance(v, ast.Dict) and "attrs" in dict_literal_keys(v):
+                            return True
+            return False
 
-    for st, c in appends:
         if carries_attrs(c.args[0]):
             continue
         # an append without attrs is fine only on paths where the attribute dict is known to be empty
@@ -331,14 +404,13 @@ def attrs_written(w, table, view):
             child, p = p, par[p]
             if isinstance(p, ast.If):
                 t = is_attr_test(p.test)
-                in_body = any(child is s or any(child is x for x in ast.walk(s)) for s in p.body)
+                in_body = any(child is s2 or any(child is x for x in ast.walk(s2)) for s2 in p.body)
                 if t is True and not in_body:
                     justified = True
                 if t is False and in_body:
                     justified = True
         if not justified:
-            return False, f"the record appended to data[{table!r}] at line {st.lineno} carries no 'attrs' although the {table[:-1]} may have attributes on that path"
-    # every node with attributes is visited: the loop(s) range over a set that includes the attributed ones
+            return False, f"the record appended for data[{table!r}] at line {st.lineno} carries no 'attrs' although the {table[:-1]} may have attributes on that path"
     return True, ""
 
 
@@ -346,7 +418,7 @@ def attrs_written(w, table, view):
 def check_hdict(repo, res):
     w = fn_of(repo, "xgi.convert.hypergraph_dict", "to_hypergraph_dict")
     r = fn_of(repo, "xgi.convert.hypergraph_dict", "from_hypergraph_dict")
-    wkeys = {k for k, _ in subscript_keys(w, "data")}
+    wkeys = written_keys(w, "data")
     rkeys = {k for k, _ in subscript_keys(r, "data")} | membership_keys(r, "data")
     written_not_read = {"type"}  # the format is documented for one class; the reader ignores the type tag
     ok = (wkeys - written_not_read) == rkeys
